@@ -98,6 +98,12 @@ def run(case, config, op, order=None, detail=False, observers=(), schedule=None,
         restarts = d[1] - d[0] + 3
     s.choice_bound = points * restarts + 2
     s.choice_budget = s.choice_bound
+    if op[0] in ("min", "max"):
+        s.solution_budget = restarts  # each improving solution removes at least one value of the objective's domain
+        s.solution_budget_why = "an optimisation can improve at most %d times on an objective with %d values" % (restarts - 2, restarts - 2)
+    else:
+        s.solution_budget = points + 1
+        s.solution_budget_why = "the search space has %d points" % points
     out.session = s
 
     def go():
@@ -120,6 +126,7 @@ def run(case, config, op, order=None, detail=False, observers=(), schedule=None,
         s2 = interpose.Session(detail=False, budget=budget)
         s2.choice_bound = s.choice_bound
         s2.choice_budget = s.choice_bound
+        s2.solution_budget, s2.solution_budget_why = s.solution_budget, s.solution_budget_why
 
         def go2():
             with interpose.use(s2):
